@@ -232,10 +232,12 @@ Record robs := {
   r_sigs : list sigobs
 }.
 
-(** scenario parameters the prediction needs: does the original block of a height carry
-    transactions (a block re-created after a restart is built from an empty pool), and does a
-    genesis state reloaded at height 0 equal the one MakeGenesisState builds *)
-Record scen := { sc_appfixed : bool }.
+(** scenario parameters the prediction needs: does a genesis state reloaded at height 0 equal the
+    one MakeGenesisState builds ([sc_appfixed]), and what the transaction pool holds after the
+    restart: nothing ([sc_newtx] = false: a re-created block equals an original one iff that one
+    carried no transactions) or a transaction the node had never seen ([sc_newtx] = true: a
+    re-created block differs from every original one) *)
+Record scen := { sc_appfixed : bool; sc_newtx : bool }.
 
 Definition mk_sig (p : bool) (ty h r : nat) (n : bool) (rl : rel) : sigobs :=
   {| s_prop := p; s_ty := ty; s_h := h; s_r := r; s_nil := n; s_rel := rl |}.
@@ -299,10 +301,10 @@ Definition recover_view (sc : scen) (tl : tail) (im : image) (v : walview) : rob
     let fresh_state := negb loaded in
     let app_ok := sc_appfixed sc || negb (start =? 1) || fresh_state in
     let good_app := app_ok && negb (memb hc (i_badapps im)) in
-    (* a block re-created after the restart (empty pool) equals the published / logged / stored one *)
-    let same_new := negb pubtx && good_app in
-    let same_log := negb ltx && good_app in
-    let same_stored := negb (stored_tx start (i_txblocks im)) && good_app in
+    (* a block re-created after the restart equals the published / logged / stored one *)
+    let same_new := negb pubtx && negb (sc_newtx sc) && good_app in
+    let same_log := negb ltx && negb (sc_newtx sc) && good_app in
+    let same_stored := negb (stored_tx start (i_txblocks im)) && negb (sc_newtx sc) && good_app in
     let torn_commit := match tl with TTorn => lv2 | _ => false end in
     let shown := if torn_commit then RcNoMarker else cls in
     let repaired := match tl with TTorn => match cls with RcReplayed => true | _ => false end | _ => false end in
